@@ -105,76 +105,105 @@ func checkC04(e *Env, r *Report) {
 		r.Fatal = err.Error()
 		return
 	}
-	src := listSource(filepath.Join(e.Src, "apparmor.d"), true)
-	ubuntu := listSource(filepath.Join(e.Src, "dists", "ubuntu"), false)
-	fullfiles := listSource(filepath.Join(e.Src, "apparmor.d", "groups", "_full"), false)
-	sd := map[string][]srcEntry{}
-	for _, k := range []string{"default", "early", "full"} {
-		sd[k] = listSource(filepath.Join(e.Src, "systemd", k), false)
+	origSrc := e.Src
+	gather := func(srcDir string, cfgs []Cfg, tag string) ([]any, int, error) {
+		e.Src = srcDir
+		defer func() { e.Src = origSrc }()
+		src := listSource(filepath.Join(e.Src, "apparmor.d"), true)
+		ubuntu := listSource(filepath.Join(e.Src, "dists", "ubuntu"), false)
+		fullfiles := listSource(filepath.Join(e.Src, "apparmor.d", "groups", "_full"), false)
+		sd := map[string][]srcEntry{}
+		for _, k := range []string{"default", "early", "full"} {
+			sd[k] = listSource(filepath.Join(e.Src, "systemd", k), false)
+		}
+		overwrite := readListFile(filepath.Join(e.Src, "dists", "overwrite"))
+		recs := make([][]any, len(cfgs))
+		errs := make([]error, len(cfgs))
+		parallel(len(cfgs), 6, func(i int) {
+			c := cfgs[i]
+			// a stale .build left by another configuration plus junk: the stage must not depend on it
+			pre := func(dir string) error {
+				junk := []string{".build/apparmor.d/zz-stale-profile", ".build/apparmor.d/groups/stale/x", ".build/systemd/system/stale.service.d/apparmor.conf", ".build/apparmor.d/disable/stale"}
+				for _, j := range junk {
+					p := filepath.Join(dir, j)
+					_ = os.MkdirAll(filepath.Dir(p), 0o755)
+					_ = os.WriteFile(p, []byte("stale\n"), 0o644)
+				}
+				return nil
+			}
+			b := e.RunPrebuild(c, BuildOpts{Src: srcDir, Tag: "c04" + tag, Listing: true, NoCache: true, PreRun: pre})
+			defer b.Drop()
+			if b.Err != nil {
+				errs[i] = b.Err
+				return
+			}
+			evs, err := readEvents(b.Trace)
+			if err != nil {
+				errs[i] = err
+				return
+			}
+			var prev []any
+			var last []any
+			for _, ev := range evs {
+				if ev["ev"] != "prepare" {
+					continue
+				}
+				lst := convListing(ev["listing"])
+				name := str(ev["name"])
+				if prev != nil && (name == "merge" || name == "setflags" || name == "overwrite") && (i%4 == 0 || e.Tier == "thorough") {
+					recs[i] = append(recs[i], map[string]any{"ev": "task", "id": tag + c.Key() + "|" + name, "name": name, "before": prev, "after": lst})
+				}
+				prev = lst
+				last = lst
+			}
+			if last == nil {
+				errs[i] = fmt.Errorf("no prepare listing for %s (hooks missing?)", c.Key())
+				return
+			}
+			flagged := []string{}
+			for n, fl := range readManifest(e.Src, c.Dist) {
+				if len(fl) > 0 {
+					flagged = append(flagged, n)
+				}
+			}
+			ign := append(readIgnore(e.Src, "main"), readIgnore(e.Src, c.Dist)...)
+			recs[i] = append(recs[i], map[string]any{"ev": "prepared", "id": tag + c.Key(), "cfg": c, "src": src, "ignore": ign, "ubuntu": ubuntu, "fullfiles": fullfiles,
+				"overwrite": overwrite, "flagged": flagged, "sd_default": sd["default"], "sd_early": sd["early"], "sd_full": sd["full"], "out": last})
+		})
+		out := []any{}
+		for i := range cfgs {
+			if errs[i] != nil {
+				return nil, 0, errs[i]
+			}
+			out = append(out, recs[i]...)
+		}
+		return out, len(src), nil
 	}
-	overwrite := readListFile(filepath.Join(e.Src, "dists", "overwrite"))
 	cfgs := prepCfgs(e)
-	recs := make([][]any, len(cfgs))
-	errs := make([]error, len(cfgs))
-	parallel(len(cfgs), 6, func(i int) {
-		c := cfgs[i]
-		// a stale .build left by another configuration plus junk: the stage must not depend on it
-		pre := func(dir string) error {
-			junk := []string{".build/apparmor.d/zz-stale-profile", ".build/apparmor.d/groups/stale/x", ".build/systemd/system/stale.service.d/apparmor.conf", ".build/apparmor.d/disable/stale"}
-			for _, j := range junk {
-				p := filepath.Join(dir, j)
-				_ = os.MkdirAll(filepath.Dir(p), 0o755)
-				_ = os.WriteFile(p, []byte("stale\n"), 0o644)
-			}
-			return nil
-		}
-		b := e.RunPrebuild(c, BuildOpts{Listing: true, NoCache: true, PreRun: pre})
-		defer b.Drop()
-		if b.Err != nil {
-			errs[i] = b.Err
-			return
-		}
-		evs, err := readEvents(b.Trace)
-		if err != nil {
-			errs[i] = err
-			return
-		}
-		var prev []any
-		var last []any
-		for _, ev := range evs {
-			if ev["ev"] != "prepare" {
-				continue
-			}
-			lst := convListing(ev["listing"])
-			name := str(ev["name"])
-			if prev != nil && (name == "merge" || name == "setflags" || name == "overwrite") && (i%4 == 0 || e.Tier == "thorough") {
-				recs[i] = append(recs[i], map[string]any{"ev": "task", "id": c.Key() + "|" + name, "name": name, "before": prev, "after": lst})
-			}
-			prev = lst
-			last = lst
-		}
-		if last == nil {
-			errs[i] = fmt.Errorf("no prepare listing for %s (hooks missing?)", c.Key())
-			return
-		}
-		flagged := []string{}
-		for n, fl := range readManifest(e.Src, c.Dist) {
-			if len(fl) > 0 {
-				flagged = append(flagged, n)
-			}
-		}
-		ign := append(readIgnore(e.Src, "main"), readIgnore(e.Src, c.Dist)...)
-		recs[i] = append(recs[i], map[string]any{"ev": "prepared", "id": c.Key(), "cfg": c, "src": src, "ignore": ign, "ubuntu": ubuntu, "fullfiles": fullfiles,
-			"overwrite": overwrite, "flagged": flagged, "sd_default": sd["default"], "sd_early": sd["early"], "sd_full": sd["full"], "out": last})
-	})
-	all := []any{}
-	for i := range cfgs {
-		if errs[i] != nil {
-			r.Fatal = errs[i].Error()
-			return
-		}
-		all = append(all, recs[i]...)
+	all, nsrc, err := gather(origSrc, cfgs, "")
+	if err != nil {
+		r.Fatal = err.Error()
+		return
 	}
+	// a variant of the source tree: one profile name in two groups, ignored by a name entry; the
+	// manifests (ignore list, flags, overwrite) end without a final newline
+	vdir, verr := c04VariantTree(e, origSrc)
+	if verr != nil {
+		r.Fatal = verr.Error()
+		return
+	}
+	vcfgs := []Cfg{{"debian", 4, "4.0", "none", false}, {"arch", 3, "3.0", "none", true}}
+	if e.Tier == "thorough" {
+		vcfgs = append(vcfgs, Cfg{"ubuntu", 4, "4.1", "none", false}, Cfg{"opensuse", 4, "4.0", "none", true}, Cfg{"whonix", 3, "4.0", "none", false})
+	}
+	vall, _, err := gather(vdir, vcfgs, "variant:")
+	if err != nil {
+		r.Fatal = err.Error()
+		return
+	}
+	all = append(all, vall...)
+	r.Coverage["variant_tree_configs"] = len(vcfgs)
+	src := make([]struct{}, nsrc)
 	r.Coverage["configs"] = len(cfgs)
 	r.Coverage["source_entries"] = len(src)
 	r.Coverage["trace_events"] = len(all)
@@ -217,7 +246,7 @@ func checkC04(e *Env, r *Report) {
 			r.Violate(fmt.Sprintf("C04|%s|%s", x.What, ps), fmt.Sprintf("[%s] %s: %s", x.ID, x.What, ps), map[string]any{"cfg": x.ID, "what": x.What, "path": pth})
 		}
 	}
-	r.Sample(map[string]any{"cfg": cfgs[0], "source_entry": src[0], "ignore_entries": len(readIgnore(e.Src, "main"))})
+	r.Sample(map[string]any{"cfg": cfgs[0], "source_entries": nsrc, "ignore_entries": len(readIgnore(e.Src, "main"))})
 	r.Assume = append(r.Assume, "the listing hook reports .build faithfully (cross-checked: the final tree is read directly by the other checks)")
 }
 
@@ -232,4 +261,51 @@ func convListing(v any) []any {
 		res = append(res, map[string]any{"segs": strings.Split(str(m["p"]), "/"), "t": str(m["t"]), "h": str(m["h"]), "hm": str(m["hm"]), "l": str(m["l"])})
 	}
 	return res
+}
+
+// c04VariantTree copies the source tree and adds what the shipped data does not have: a profile name
+// that lives in two groups and is ignored by a name entry, and manifests without a final newline.
+func c04VariantTree(e *Env, src string) (string, error) {
+	dst := filepath.Join(e.Scratch, "src-c04-variant")
+	if out, err := execCmd("cp", "-a", src, dst); err != nil {
+		return "", fmt.Errorf("copy source: %v %s", err, out)
+	}
+	prof := func(name string) string {
+		return "abi <abi/4.0>,\n\ninclude <tunables/global>\n\n@{exec_path} = @{bin}/" + name + "\nprofile " + name + " @{exec_path} {\n  include <abstractions/base>\n\n  @{exec_path} mr,\n\n  include if exists <local/" + name + ">\n}\n"
+	}
+	for _, g := range []string{"vgen-a", "vgen-b"} {
+		d := filepath.Join(dst, "apparmor.d", "groups", g)
+		if err := os.MkdirAll(d, 0o755); err != nil {
+			return "", err
+		}
+		if err := os.WriteFile(filepath.Join(d, "vgen-dup"), []byte(prof("vgen-dup")), 0o644); err != nil {
+			return "", err
+		}
+		if err := os.WriteFile(filepath.Join(d, "vgen-keep-"+g), []byte(prof("vgen-keep-"+g)), 0o644); err != nil {
+			return "", err
+		}
+	}
+	stripNL := func(p string, extra string) error {
+		b, err := os.ReadFile(p)
+		if err != nil {
+			return err
+		}
+		t := strings.TrimRight(string(b), "\n")
+		if extra != "" {
+			t += "\n" + extra
+		}
+		return os.WriteFile(p, []byte(t), 0o644)
+	}
+	for _, d := range Dists {
+		if err := stripNL(filepath.Join(dst, "dists", "ignore", d+".ignore"), "vgen-dup"); err != nil {
+			return "", err
+		}
+	}
+	if err := stripNL(filepath.Join(dst, "dists", "overwrite"), ""); err != nil {
+		return "", err
+	}
+	if err := stripNL(filepath.Join(dst, "dists", "flags", "main.flags"), "vgen-keep-vgen-b attach_disconnected,complain"); err != nil {
+		return "", err
+	}
+	return dst, nil
 }
